@@ -906,8 +906,6 @@ def normalize(repo, rebuild):
                 if fi.key not in kf and eligible(fi):
                     if fi.cls is not None and ("%s::%s" % (rel, fi.cls.name)) not in known["class_attrs"]:
                         continue  # a whole new class
-                    if fi.outer is not None and fi.outer.key not in kf and not eligible(fi.outer):
-                        continue
                     unknown[fi.key] = fi
         for k in _recursive(repo, unknown):
             unknown.pop(k, None)
